@@ -941,6 +941,7 @@ func (e *Exec) execBlock(b *ssa.BasicBlock, st State) {
 			a, bb := e.val(x.X), e.val(x.Y)
 			e.env[x] = e.named(e.binop(x.Op, a, bb, x.X.Type(), x.Type(), &st, x.Pos()), "v")
 		case *ssa.Store:
+			e.guardCheck(x.Addr, true, &st, x.Pos())
 			p := e.val(x.Addr)
 			if p.Loc == nil {
 				e.safety("nil", &st, not(fmt.Sprintf("(= %s nil)", p.T)), "nil dereference in store", x.Pos())
@@ -1025,6 +1026,7 @@ func (e *Exec) execBlock(b *ssa.BasicBlock, st State) {
 			e.execGo(x, &st)
 		case *ssa.Send:
 			ch := e.val(x.Chan)
+			e.noLockCheck(&st, "channel send", x.Pos())
 			e.ghostEvent("send", ch, &st)
 		case *ssa.Select:
 			e.execSelect(x, &st)
@@ -1076,6 +1078,7 @@ func (e *Exec) execAlloc(x *ssa.Alloc, st *State) {
 	e.allocNew(st, r)
 	if isStruct(t) {
 		st.heap = c.storeStruct(st.heap, r, t, c.zero(t))
+		e.initLocks(st, r, t)
 	} else if isArray(t) {
 		// contents unknown until stored
 	} else {
@@ -1194,6 +1197,7 @@ func (e *Exec) execUnOp(x *ssa.UnOp, st *State) {
 	v := e.val(x.X)
 	switch x.Op {
 	case token.MUL:
+		e.guardCheck(x.X, false, st, x.Pos())
 		if g, ok := x.X.(*ssa.Global); ok {
 			if cv, ok := e.immutableGlobal(g); ok {
 				e.env[x] = cv
@@ -1229,6 +1233,7 @@ func (e *Exec) execUnOp(x *ssa.UnOp, st *State) {
 			e.env[x] = e.uninterp("bitnot_"+sanitize(typeString(x.Type())), x.Type(), v)
 		}
 	case token.ARROW:
+		e.noLockCheck(st, "channel receive", x.Pos())
 		e.ghostEvent("recv", v, st)
 		r := c.freshVal("recv", x.Type())
 		e.env[x] = r
@@ -1441,6 +1446,8 @@ func (e *Exec) execSelect(x *ssa.Select, st *State) {
 	lo := 0
 	if !x.Blocking {
 		lo = -1
+	} else {
+		e.noLockCheck(st, "blocking select", x.Pos())
 	}
 	c.factUnder(st.pc, and(c.le(c.idx(int64(lo)), vs[0].T), c.lt(vs[0].T, c.idx(int64(len(x.States))))))
 	e.env[x] = Val{Tuple: vs, GT: x.Type(), S: "Tuple"}
